@@ -158,6 +158,106 @@ theorem rtx_unwrap_none_iff (p : Packet) (s : UInt32) (t : UInt8) :
   | [_] => simp
   | _ :: _ :: _ => simp
 
+/-- `decode_osn ∘ encode_osn = id`, whatever follows the two OSN bytes -/
+theorem osn_roundtrip (v : UInt16) (rest : Bytes) : decodeOsn (encodeOsn v ++ rest) = some v := by
+  simp [decodeOsn, encodeOsn, be16]
+
+/-- **rtx_alloc_spec**: `allocate_rtx_payload_type` returns the smallest dynamic payload type 96..127
+that is not in use, and `None` only when all 32 are taken. -/
+theorem rtx_alloc_spec (used : List UInt8) :
+    (∀ pt, allocRtxPt used = some pt → 96 ≤ pt.toNat ∧ pt.toNat ≤ 127 ∧ pt ∉ used ∧
+        ∀ q, 96 ≤ q → q < pt.toNat → u8 q ∈ used) ∧
+    (allocRtxPt used = none → ∀ q, 96 ≤ q → q ≤ 127 → u8 q ∈ used) := by
+  have key : ∀ (fuel lo : Nat), lo + fuel ≤ 256 →
+      (∀ pt, allocRtxPtFrom used lo fuel = some pt → lo ≤ pt.toNat ∧ pt.toNat < lo + fuel ∧ pt ∉ used ∧
+          ∀ q, lo ≤ q → q < pt.toNat → u8 q ∈ used) ∧
+      (allocRtxPtFrom used lo fuel = none → ∀ q, lo ≤ q → q < lo + fuel → u8 q ∈ used) := by
+    intro fuel
+    induction fuel with
+    | zero => intro lo _; exact ⟨by intro pt h; simp [allocRtxPtFrom] at h, by intro _ q h1 h2; omega⟩
+    | succ f ih =>
+      intro lo hlo
+      simp only [allocRtxPtFrom]
+      by_cases hc : used.contains (u8 lo) = true
+      · rw [if_pos hc]
+        obtain ⟨h1, h2⟩ := ih (lo + 1) (by omega)
+        have hmem : u8 lo ∈ used := by simpa using hc
+        refine ⟨fun pt hpt => ?_, fun hn q hq1 hq2 => ?_⟩
+        · obtain ⟨a, b, c, d⟩ := h1 pt hpt
+          refine ⟨by omega, by omega, c, fun q hq1 hq2 => ?_⟩
+          by_cases hql : q = lo
+          · subst hql; exact hmem
+          · exact d q (by omega) hq2
+        · by_cases hql : q = lo
+          · subst hql; exact hmem
+          · exact h2 hn q (by omega) (by omega)
+      · rw [if_neg hc]
+        have hnm : u8 lo ∉ used := by simpa using hc
+        refine ⟨fun pt hpt => ?_, fun hn => by cases hn⟩
+        simp only [Option.some.injEq] at hpt
+        subst hpt
+        have : (u8 lo).toNat = lo := u8_toNat_lt (by omega)
+        exact ⟨by omega, by omega, hnm, fun q hq1 hq2 => by omega⟩
+  have hlo : c15RtxPtLo = 96 := c15RtxPtLo_val
+  have hhi : c15RtxPtHi = 127 := c15RtxPtHi_val
+  have := key (c15RtxPtHi + 1 - c15RtxPtLo) c15RtxPtLo (by omega)
+  unfold allocRtxPt
+  refine ⟨fun pt hpt => ?_, fun hn q h1 h2 => ?_⟩
+  · obtain ⟨a, b, c, d⟩ := this.1 pt hpt
+    exact ⟨by omega, by omega, c, fun q hq1 hq2 => d q (by omega) hq2⟩
+  · exact this.2 hn q (by omega) (by omega)
+
+/-- every RTCP packet this stack serialises is classified as RTCP by `is_rtcp` (the demultiplexer's test) -/
+theorem is_rtcp_own_output (p : Rtcp) (bs : Bytes) (h : marshalOne p = .ok bs) : isRtcp bs = true := by
+  have hw : ∀ fmt pt body, 192 ≤ pt → pt ≤ 208 → isRtcp (writeRtcp fmt pt body) = true := by
+    intro fmt pt body h1 h2
+    simp only [writeRtcp, isRtcp, u8_toNat, c15IsRtcpLo_val, c15IsRtcpHi_val]
+    have : pt % 256 = pt := by omega
+    simp [this, h1, h2]
+  cases p with
+  | sr s m l t pc oc bl =>
+    simp only [marshalOne] at h; split at h
+    · cases h
+    · injection h with h; subst h; exact hw _ _ _ (by rw [c15RtcpSr_val]; omega) (by rw [c15RtcpSr_val]; omega)
+  | rr s bl =>
+    simp only [marshalOne] at h; split at h
+    · cases h
+    · injection h with h; subst h; exact hw _ _ _ (by rw [c15RtcpRr_val]; omega) (by rw [c15RtcpRr_val]; omega)
+  | sdes cs =>
+    simp only [marshalOne] at h; split at h
+    · cases h
+    · split at h
+      · cases h
+      · injection h with h; subst h; exact hw _ _ _ (by rw [c15RtcpSdes_val]; omega) (by rw [c15RtcpSdes_val]; omega)
+  | bye ss r =>
+    simp only [marshalOne] at h; split at h
+    · cases h
+    · injection h with h; subst h; exact hw _ _ _ (by rw [c15RtcpBye_val]; omega) (by rw [c15RtcpBye_val]; omega)
+  | pli s m =>
+    simp only [marshalOne] at h; injection h with h; subst h
+    exact hw _ _ _ (by rw [c15RtcpPsfb_val]; omega) (by rw [c15RtcpPsfb_val]; omega)
+  | fir s rq =>
+    simp only [marshalOne] at h; injection h with h; subst h
+    exact hw _ _ _ (by rw [c15RtcpPsfb_val]; omega) (by rw [c15RtcpPsfb_val]; omega)
+  | nack s m lost =>
+    simp only [marshalOne] at h; split at h
+    · cases h
+    · injection h with h; subst h; exact hw _ _ _ (by rw [c15RtcpRtpfb_val]; omega) (by rw [c15RtcpRtpfb_val]; omega)
+  | remb s br ss =>
+    simp only [marshalOne] at h; split at h
+    · cases h
+    · injection h with h; subst h; exact hw _ _ _ (by rw [c15RtcpPsfb_val]; omega) (by rw [c15RtcpPsfb_val]; omega)
+  | twcc s m b c r f pl =>
+    simp only [marshalOne] at h; injection h with h; subst h
+    have h205 := hw c15FmtTwcc c15RtcpRtpfb
+    simp only [twccWire]
+    split
+    · exact h205 _ (by rw [c15RtcpRtpfb_val]; omega) (by rw [c15RtcpRtpfb_val]; omega)
+    · have := h205 (twccBody s m b c r f pl ++ List.replicate (pad4 (twccBody s m b c r f pl).length - 1) 0 ++
+          [u8 (pad4 (twccBody s m b c r f pl).length)]) (by rw [c15RtcpRtpfb_val]; omega) (by rw [c15RtcpRtpfb_val]; omega)
+      simp only [writeRtcp] at this ⊢
+      simpa [isRtcp] using this
+
 /-! ### header extensions (RFC 8285) -/
 
 /-- **set_extension_total**: `set_extension` has no panic outcome on any header, id and data (an
@@ -538,6 +638,8 @@ theorem nackbuf_bounded (maxSize : Nat) (ops : List BufOp) :
         simp only [bufFinal]; rw [ih]
         cases o with
         | push s t => simp only [NackBuf.step, NackBuf.push]; split <;> rfl
+        | sent ssrc s t => simp only [NackBuf.step, NackBuf.push]; split <;> (try split) <;> rfl
+        | setRtx ssrc => rfl
         | query n q => rfl
     exact this ops _
   exact ⟨by rw [hl, ← hm]; exact i.bounded, hl, i.nodup, mem_order_iff i⟩
@@ -547,6 +649,12 @@ sequence number replaces the stored packet) — in every reachable state. -/
 theorem nackbuf_latest (maxSize : Nat) (ops : List BufOp) (s : UInt16) (t : Nat) :
     mapGet ((bufFinal (NackBuf.new maxSize) ops).push s t).packets s = some t :=
   push_get_self (inv_final (inv_new maxSize) ops) s t
+
+/-- RTX retransmissions (packets carrying the configured RTX SSRC) are never stored in the send buffer,
+so a NACK can never be answered with an RTX packet wrapped in RTX again. -/
+theorem nackbuf_never_buffers_rtx (b : NackBuf) (seq : UInt16) (tag : Nat) (h : b.rtxSsrc ≠ 0) :
+    (b.step (.sent b.rtxSsrc seq tag)).1 = b := by
+  simp [NackBuf.step, h]
 
 /-- **nackbuf_fifo**: one send changes the FIFO in exactly one of three ways — nothing (sequence number
 already buffered), append, or append and drop the single OLDEST entry (only when the buffer is full). -/
